@@ -206,8 +206,13 @@ where
         }
         let r = {
             let mut c = ctx.borrow_mut();
-            c.eval();
-            guarded(&case, || check(&case, &mut c))
+            let before = c.evaluations;
+            let r = guarded(&case, || check(&case, &mut c));
+            if c.evaluations == before {
+                // the check did not count finer-grained evaluations itself: the case is the unit
+                c.eval();
+            }
+            r
         };
         match r {
             Ok(()) => Ok(()),
@@ -269,8 +274,12 @@ where
     let mut ctx = Ctx::new();
     let mut out = PartOutcome { part: cfg.part.to_string(), exhaustive: true, ..PartOutcome::default() };
     for case in cases {
-        ctx.eval();
-        if let Err(msg) = guarded(&case, || check(&case, &mut ctx)) {
+        let before = ctx.evaluations;
+        let r = guarded(&case, || check(&case, &mut ctx));
+        if ctx.evaluations == before {
+            ctx.eval();
+        }
+        if let Err(msg) = r {
             out.violation = Some(Violation {
                 part: cfg.part.to_string(),
                 harness_error: msg.contains(HARNESS_PREFIX),
